@@ -28,10 +28,17 @@ def load_known():
 
 
 def load_baseline():
+    """{'__by_property__': {prop: {tier: {obligation: status}}}}; returns (raw, flat) where flat maps an obligation
+    name to DISCHARGED/BOUNDED_OK if some recorded run on the unchanged tree discharged it"""
     p = os.path.join(ROOT, 'baseline_obligations.json')
-    if not os.path.exists(p):
-        return {}
-    return json.load(open(p))
+    raw = json.load(open(p)) if os.path.exists(p) else {}
+    flat = {}
+    for tiers in raw.get('__by_property__', {}).values():
+        for obs in tiers.values():
+            for n, st in obs.items():
+                if st in (DISCHARGED, BOUNDED_OK):
+                    flat[n] = st
+    return raw, flat
 
 
 def known_match(known, prop, res):
@@ -112,11 +119,11 @@ def main(argv=None):
     wall = time.time() - t0
 
     known = load_known()
-    baseline = load_baseline()
+    baseline_raw, baseline = load_baseline()
     viol, known_hits, undec, errs = [], [], [], []
     for r in results:
         if r.status in (FAILED, BOUNDED_FAILED):
-            k = known_match(known, prop, r) if prop != 'ALL' else None
+            k = known_match(known, prop, r) if prop != 'ALL' else next((m for m in (known_match(known, P, r) for P in r.props) if m), None)
             if k:
                 known_hits.append((r, k)); continue
             rep = r.detail.get('replay') or {}
@@ -138,15 +145,9 @@ def main(argv=None):
             errs.append(r)
     names = {r.name for r in results}
     missing = []
-    if not args.only and prop != 'ALL':
-        missing = sorted(n for n, st in baseline.items() if n.startswith(prop + '/') is False and False)
-        # baseline keys are stored per property: {"<prop>": {"name": status}}
-    base_prop = baseline.get('__by_property__', {}).get(prop, {}) if prop != 'ALL' else {}
+    base_prop = baseline_raw.get('__by_property__', {}).get(prop, {}) if prop != 'ALL' else {}
     if base_prop and not args.only:
-        tierkey = args.tier
-        expected = base_prop.get(tierkey, {})
-        missing = sorted(n for n in expected if n not in names)
-        # flat lookup for the "was discharged before" rule
+        missing = sorted(n for n in base_prop.get(args.tier, {}) if n not in names)
     # evidence
     n_proof = [r for r in results if r.status in (DISCHARGED, FAILED, UNDECIDED, ERROR)]
     n_dis = [r for r in results if r.status == DISCHARGED]
@@ -224,12 +225,11 @@ def main(argv=None):
     print(f'[{prop} {args.tier}] obligations={len(proof_obl)} discharged={ev["coverage"]["discharged"]} '
           f'known={len(known_hits)} bounded={len(n_bounded)} violations={len(viol)} undecided={len(undec)} errors={len(errs)} '
           f'missing={len(missing)} wall={wall:.1f}s')
-    if args.update_baseline and not args.only and prop != 'ALL':
-        b = load_baseline()
-        b.setdefault('__by_property__', {}).setdefault(prop, {})[args.tier] = {r.name: r.status for r in results}
-        for r in results:
-            if r.status in (DISCHARGED, BOUNDED_OK):
-                b[r.name] = r.status
+    if args.update_baseline and not args.only:
+        b = {'__by_property__': load_baseline()[0].get('__by_property__', {})}
+        # ALL: one run of every task, recorded under every property each obligation serves
+        for P in (sorted({p for r in results for p in r.props}) if prop == 'ALL' else [prop]):
+            b['__by_property__'].setdefault(P, {})[args.tier] = {r.name: r.status for r in results if P in r.props}
         with open(os.path.join(ROOT, 'baseline_obligations.json'), 'w') as f:
             json.dump(b, f, indent=0, sort_keys=True)
     if code:
